@@ -22,6 +22,16 @@ class Attempt:
         self.options = options
 
 
+class InvalidResult(Exception):
+    """Raised by an `exec_view` callable: the accepted result is not a program
+    any more (cannot be written, re-read, or uses undeclared names).
+    `tag` is a short stable description used in the signature."""
+
+    def __init__(self, tag, msg=""):
+        super().__init__(f"{tag}: {msg}" if msg else tag)
+        self.tag = tag
+
+
 def nth(cls, index):
     """Locator: the index-th node of class cls in walk order."""
     def locate(tree):
@@ -41,10 +51,23 @@ def write(tree):
 
 
 def check_program(key, src, attempts_fn, inputs, routine="s", horizon=100000,
-                  prepare=None, sig_fn=None):
+                  prepare=None, sig_fn=None, monitor=None, exec_view=None,
+                  fresh_parse=False, diag_fn=None):
     """inputs: list of (input key, callable -> list of argument storage).
     prepare: optional callable applied to the parsed tree (builds program
     variants that only the PSyIR API can express).
+    monitor: optional factory, called once per run of the ORIGINAL program;
+    the object's `hooks` / `tracer` attributes are handed to E1 (extra
+    admissibility filters raising interp.UB, e.g. Fortran's aliasing rules).
+    exec_view: optional callable(transformed tree) -> tree that is executed
+    instead (e.g. FortranWriter output re-read by the frontend, so that names
+    are resolved as in the generated source); raises InvalidResult when the
+    result is not a program.
+    fresh_parse: every attempt works on a new parse of `src` instead of
+    tree.copy() (no copy guard needed).
+    diag_fn: optional callable(tree, fresh, run_tree, attempt, bad, inputs,
+    orig) -> short mechanism tag, passed to sig_fn as a 5th argument and
+    appended to the message.
     Returns a result dict in the runner's format."""
     classes = {}
     viol = []
@@ -59,7 +82,10 @@ def check_program(key, src, attempts_fn, inputs, routine="s", horizon=100000,
     orig = {}
     for ikey, make in inputs:
         args = make()
-        res = equiv.run(tree, routine, args, horizon=horizon)
+        mon = monitor() if monitor is not None else None
+        res = equiv.run(tree, routine, args, horizon=horizon,
+                        hooks=getattr(mon, "hooks", None),
+                        tracer=getattr(mon, "tracer", None))
         if res[0] == "ok":
             orig[ikey] = equiv.observe(args)
         elif res[0] == "unsupported":
@@ -72,11 +98,16 @@ def check_program(key, src, attempts_fn, inputs, routine="s", horizon=100000,
     # Attempts work on copies of the parsed tree (parsing costs 15-40 ms, a
     # copy 1 ms).  Guard: the copy must write to the same text as the tree
     # it was taken from (checked once per program).
-    if attempts and write(tree.copy()) != write(tree):
+    if attempts and not fresh_parse and write(tree.copy()) != write(tree):
         raise RuntimeError(f"copy of program {key} does not write identically")
     for att in attempts:
         evals += 1
-        fresh = tree.copy()
+        if fresh_parse:
+            fresh = parse(src)
+            if prepare is not None:
+                prepare(fresh)
+        else:
+            fresh = tree.copy()
         try:
             targets = att.locate(fresh)
         except IndexError:
@@ -98,11 +129,19 @@ def check_program(key, src, attempts_fn, inputs, routine="s", horizon=100000,
         accepted += 1
         count(f"{type(trans).__name__}:accepted")
         bad = []
+        run_tree = fresh
+        if exec_view is not None and orig:
+            try:
+                run_tree = exec_view(fresh)
+            except InvalidResult as err:
+                run_tree = None
+                bad.append((f"invalid:{err.tag}",
+                            f"the transformed program is not valid ({err})"))
         for ikey, make in inputs:
-            if ikey not in orig:
+            if ikey not in orig or run_tree is None:
                 continue
             args = make()
-            res = equiv.run(fresh, routine, args, horizon=horizon)
+            res = equiv.run(run_tree, routine, args, horizon=horizon)
             if res[0] == "unsupported":
                 raise RuntimeError(
                     f"E1 cannot run transformed program {key} / {att.label}: "
@@ -126,13 +165,22 @@ def check_program(key, src, attempts_fn, inputs, routine="s", horizon=100000,
                 import zlib
                 short = (f"{len(bad)}of{len(orig)}inputs#"
                          f"{zlib.crc32(where.encode()) & 0xffffffff:08x}")
+            diag = None
+            if diag_fn is not None:
+                diag = diag_fn(tree, fresh, run_tree, att, bad, inputs, orig)
+            if sig_fn is None:
+                sig = f"{att.label}|{key}|bad@{short}"
+            elif diag_fn is not None:
+                sig = sig_fn(tname, att.label, key, [b[0] for b in bad], diag)
+            else:
+                sig = sig_fn(tname, att.label, key, [b[0] for b in bad])
             viol.append({
                 "key": f"{key}|{att.label}",
-                "sig": (sig_fn(tname, att.label, key, [b[0] for b in bad])
-                        if sig_fn else f"{att.label}|{key}|bad@{short}"),
+                "sig": sig,
                 "group": tname,
                 "msg": f"{att.label} accepted on program {key}; wrong on inputs "
-                       f"{where}; e.g. input {bad[0][0]}: {bad[0][1]}.\n"
+                       f"{where}; e.g. input {bad[0][0]}: {bad[0][1]}."
+                       + (f" [{diag}]" if diag else "") + "\n"
                        f"--- original ---\n{write(tree) if prepare else src}"
                        f"--- transformed ---\n{write(fresh)}",
                 "case": {"src": src, "label": att.label, "key": key,
